@@ -1,9 +1,90 @@
-(* C05 - placeholder while the model is being validated against the code. *)
+(* C05 - setup()/loop() split: run-once prologue, repeated body, configure-before-use.
+   Statements only; proofs are in Proofs/C05P.v; the model is Lang/Split.v + Lang/Emit.v. *)
 From Coq Require Import ZArith List Bool.
-From RV Require Import Base.Wire Lang.Split Lang.Emit.
+From RV Require Import Lang.Split Lang.Emit Proofs.C05P.
 Import ListNotations.
 Open Scope Z_scope.
 
-Example C05_stub : split [IStmt SBreak] = ([SBreak], []).
-Proof. reflexivity. Qed.
-Print Assumptions C05_stub.
+(* ---------------------------------------------------------------- once, then repeat *)
+(* Structure of every run of the model firmware, for every program, input history and N:
+   the setup() trace does not depend on N, there are exactly N pass traces, and the run with
+   N passes is the prefix of the run with N+K passes (so each pass is executed once, after
+   setup(), from the store the previous pass left). *)
+Theorem C05_once_then_repeat : forall inp its n k,
+  fst (fst (exec_phases inp n its)) = setup_of inp its /\
+  length (snd (fst (exec_phases inp n its))) = n /\
+  snd (fst (exec_phases inp n its)) = firstn n (snd (fst (exec_phases inp (n + k) its))).
+Proof. exact once_then_repeat_structure. Qed.
+Print Assumptions C05_once_then_repeat.
+
+(* Inside the guard (no rejected break; at most one [while True:] and nothing after it; no name
+   first assigned inside [while True:] or inside a block below setup depth 0) the observable
+   trace (numbered statements, printed values) of the firmware is CPython's: the prologue once,
+   in source order, before the first pass; the body once per pass, in source order; values
+   persisting between passes - phase by phase, for every input history and every N. *)
+Theorem C05_once_then_repeat_partial : forall inp n its,
+  transl_ok its = true -> vars_persist its = true -> one_main_last its = true ->
+  forall ts tl cu ps pl pu,
+  exec_phases inp n its = (ts, tl, cu) -> py_phases n its = (ps, pl, pu) ->
+  obs ts = obs ps /\ concat (map obs tl) = concat (map obs pl) /\ cu = pu /\
+  (no_main its = false -> map obs tl = map obs pl).
+Proof. exact once_then_repeat_guarded. Qed.
+Print Assumptions C05_once_then_repeat_partial.
+
+Theorem C05_trace_is_pythons_partial : forall inp n its,
+  transl_ok its = true -> vars_persist its = true -> one_main_last its = true ->
+  obs (exec inp n its) = py_exec n its.
+Proof. exact once_then_repeat_trace. Qed.
+Print Assumptions C05_trace_is_pythons_partial.
+
+Example C05_guard_nonvacuous :
+  transl_ok w_good = true /\ vars_persist w_good = true /\ one_main_last w_good = true /\
+  no_main w_good = false /\
+  py_exec 2 w_good = [EMark 1; EMark 2; EVal n_g 2; EMark 2; EVal n_g 4].
+Proof. exact good_nonvacuous. Qed.
+Print Assumptions C05_guard_nonvacuous.
+
+(* Each clause of the guard is needed: the faithful model leaves CPython's trace outside it. *)
+(* a name first assigned inside [while True:] is a local of loop(): re-initialised every pass *)
+Theorem C05_looplocal_refuted : exists its inp n,
+  transl_ok its = true /\ one_main_last its = true /\ vars_persist its = false /\
+  obs (exec inp n its) <> py_exec n its.
+Proof. exact looplocal_refuted_ex. Qed.
+Print Assumptions C05_looplocal_refuted.
+
+(* statements written after the main loop (unreachable in Python) run once in setup() *)
+Theorem C05_postloop_refuted : exists its inp n,
+  transl_ok its = true /\ vars_persist its = true /\ one_main_last its = false /\
+  obs (exec inp n its) <> py_exec n its.
+Proof. exact postloop_refuted_ex. Qed.
+Print Assumptions C05_postloop_refuted.
+
+(* the body of a second top-level [while True:] is appended to loop() *)
+Theorem C05_twoloops_refuted : exists its inp n,
+  transl_ok its = true /\ vars_persist its = true /\ one_main_last its = false /\
+  obs (exec inp n its) <> py_exec n its.
+Proof. exact twoloops_refuted_ex. Qed.
+Print Assumptions C05_twoloops_refuted.
+
+(* ---------------------------------------------------------------- break guard *)
+(* a [break] separated from [while True:] (or from the top level) by [if]s only is rejected *)
+Theorem C05_break_guard : forall its,
+  (forall body, In (IMainLoop body) its -> brk_at body -> transl_ok its = false) /\
+  (forall s, In (IStmt s) its -> brk_at [s] -> transl_ok its = false).
+Proof. exact break_guard_rejects. Qed.
+Print Assumptions C05_break_guard.
+
+(* in an accepted program setup() runs to its last statement and no pass of loop() is cut short,
+   whatever the store and the button history (breaks of inner [for] loops stay inside them) *)
+Theorem C05_break_never_leaves_main : forall its, transl_ok its = true ->
+  (forall m, snd (run_ann m (p_tab (transl its)) true (p_setup (transl its)) v0) = false) /\
+  (forall m inp v h, snd (run_pass m inp (transl its) v h) = false).
+Proof. exact break_guard_sound. Qed.
+Print Assumptions C05_break_never_leaves_main.
+
+Example C05_break_guard_nonvacuous :
+  transl_ok [IMainLoop [SIf n_flag [SBreak]]] = false /\
+  transl_ok [IMainLoop [SFor 2 [SIf n_flag [SBreak]]]] = true /\
+  transl_ok [IStmt SBreak] = false.
+Proof. exact break_guard_examples. Qed.
+Print Assumptions C05_break_guard_nonvacuous.
